@@ -1229,7 +1229,7 @@ package jsonpath
 // entry state of a function (sound there for every function that leaves the `next` links alone).
 //@ smt (declare-fun PN (Val) Bool)
 //@ spec PNmulti(m *syntaxChildMultiIdentifier) bool = m != nil && wf(m.identifiers) && (forall k {elemAt(m.identifiers, k)} :: off(m.identifiers) <= k && k < off(m.identifiers) + len(m.identifiers) ==> nodeOK(elemAt(m.identifiers, k))) && (m.isAllWildcard ==> m.unionQualifier != nil && m.unionQualifier.syntaxBasicNode != nil)
-//@ spec PNdef(v any) bool = nodeOK(v) && 0 <= chainLen(v) && (basicOf(v).next != nil ==> PN(basicOf(v).next) && chainLen(basicOf(v).next) < chainLen(v)) && (isType(v, *syntaxChildMultiIdentifier) ==> PNmulti(asType(v, *syntaxChildMultiIdentifier)))
+//@ spec PNdef(v any) bool = nodeOK(v) && 0 <= chainLen(v) && (basicOf(v).next != nil ==> PN(basicOf(v).next) && chainLen(basicOf(v).next) < chainLen(v)) && (isType(v, *syntaxChildMultiIdentifier) ==> PNmulti(asType(v, *syntaxChildMultiIdentifier))) && (isType(v, *syntaxAggregateFunction) ==> asType(v, *syntaxAggregateFunction) != nil && (asType(v, *syntaxAggregateFunction).param != nil ==> PN(asType(v, *syntaxAggregateFunction).param)))
 
 // chainWalk(v): v's successor (if any) is again a node with a strictly shorter chain (ghost ranking for termination)
 //@ spec chainWalk(v any) bool = basicOf(v).next != nil ==> nodeOK(basicOf(v).next) && 0 <= chainLen(basicOf(v).next) && chainLen(basicOf(v).next) < chainLen(v) && chainWalkNext(basicOf(v).next)
@@ -1282,6 +1282,7 @@ package jsonpath
 //@   trusted
 //@   requires p != nil
 //@   before setValueGroup#1 assert moved: basicOf(targetNode).valueGroup && recv == basicOf(targetNode).next
+//@   ensures chain: nodeWF(ret)
 //@   requires nodeOK(targetNode) && 0 <= chainLen(targetNode) && chainWalk(targetNode)
 //@   decreases chainLen(targetNode)
 
@@ -1290,19 +1291,23 @@ package jsonpath
 //@   parsetime
 //@   requires p != nil
 //@   requires wf(p.paramsList) && wf(p.params)
+// the saved stack goes back UNDER the values pushed since: the top of the stack is untouched
+//@   ensures top: (old(len(p.params)) >= 1 ==> elemAt(p.params, off(p.params) + len(p.params) - 1) == old(elemAt(p.params, off(p.params) + len(p.params) - 1))) && (old(len(p.params)) >= 2 ==> elemAt(p.params, off(p.params) + len(p.params) - 2) == old(elemAt(p.params, off(p.params) + len(p.params) - 2)))
+//@   ensures kept: wf(p.params) && wf(p.paramsList) && len(p.params) >= old(len(p.params)) && (forall d {elemAt(p.params, off(p.params) + len(p.params) - 1 - d)} :: 0 <= d && d < old(len(p.params)) ==> elemAt(p.params, off(p.params) + len(p.params) - 1 - d) == old(elemAt(p.params, off(p.params) + len(p.params) - 1 - d)))
 
 //@ func (*jsonPathParser).pop
 //@   props C02 C19
 //@   parsetime
 //@   requires p != nil
 //@   requires len(p.params) >= 1
-//@   ensures popped: ret == old(elemAt(p.params, off(p.params) + len(p.params) - 1)) && len(p.params) == old(len(p.params)) - 1
+//@   ensures popped: ret == old(elemAt(p.params, off(p.params) + len(p.params) - 1)) && len(p.params) == old(len(p.params)) - 1 && arr(p.params) == old(arr(p.params)) && off(p.params) == old(off(p.params)) && wf(p.params)
 
 //@ func (*jsonPathParser).push
 //@   props C02 C19
 //@   parsetime
 //@   requires p != nil
-//@   ensures pushed: len(p.params) == old(len(p.params)) + 1 && elemAt(p.params, off(p.params) + len(p.params) - 1) == param
+//@   ensures pushed: len(p.params) == old(len(p.params)) + 1 && elemAt(p.params, off(p.params) + len(p.params) - 1) == param && wf(p.params)
+//@   ensures below: forall k {p.params[k]} :: 0 <= k && k < old(len(p.params)) ==> p.params[k] == old(p.params[k])
 
 //@ func (*jsonPathParser).pushBasicCompareParameter
 //@   props C02 C19
@@ -1460,19 +1465,22 @@ package jsonpath
 //@   panics ErrorInvalidArgument
 
 //@ func (*jsonPathParser).pushLogicalAnd
-//@   props C02 C19
+//@   props C02 C19 C09
 //@   parsetime
 //@   requires p != nil
+//@   ensures built: len(p.params) == old(len(p.params)) + 1 && isType(topParam(p), *syntaxLogicalAnd) && asType(topParam(p), *syntaxLogicalAnd) != nil && asType(topParam(p), *syntaxLogicalAnd).leftQuery == leftQuery && asType(topParam(p), *syntaxLogicalAnd).rightQuery == rightQuery
 
 //@ func (*jsonPathParser).pushLogicalNot
-//@   props C02 C19
+//@   props C02 C19 C09
 //@   parsetime
 //@   requires p != nil
+//@   ensures built: len(p.params) == old(len(p.params)) + 1 && isType(topParam(p), *syntaxLogicalNot) && asType(topParam(p), *syntaxLogicalNot) != nil && asType(topParam(p), *syntaxLogicalNot).query == query
 
 //@ func (*jsonPathParser).pushLogicalOr
-//@   props C02 C19
+//@   props C02 C19 C09
 //@   parsetime
 //@   requires p != nil
+//@   ensures built: len(p.params) == old(len(p.params)) + 1 && isType(topParam(p), *syntaxLogicalOr) && asType(topParam(p), *syntaxLogicalOr) != nil && asType(topParam(p), *syntaxLogicalOr).leftQuery == leftQuery && asType(topParam(p), *syntaxLogicalOr).rightQuery == rightQuery
 
 //@ func (*jsonPathParser).pushOmittedIndexSubscript
 //@   props C02 C19
@@ -1498,14 +1506,16 @@ package jsonpath
 //@   panics ErrorNotSupported
 
 //@ func (*jsonPathParser).pushSliceNegativeStepSubscript
-//@   props C02 C19
+//@   props C02 C19 C11
 //@   parsetime
 //@   requires p != nil
+//@   ensures built: len(p.params) == old(len(p.params)) + 1 && isType(topParam(p), *syntaxSliceNegativeStepSubscript) && asType(topParam(p), *syntaxSliceNegativeStepSubscript) != nil && asType(topParam(p), *syntaxSliceNegativeStepSubscript).start == start && asType(topParam(p), *syntaxSliceNegativeStepSubscript).end == end && asType(topParam(p), *syntaxSliceNegativeStepSubscript).step == step
 
 //@ func (*jsonPathParser).pushSlicePositiveStepSubscript
-//@   props C02 C19
+//@   props C02 C19 C11
 //@   parsetime
 //@   requires p != nil
+//@   ensures built: len(p.params) == old(len(p.params)) + 1 && isType(topParam(p), *syntaxSlicePositiveStepSubscript) && asType(topParam(p), *syntaxSlicePositiveStepSubscript) != nil && asType(topParam(p), *syntaxSlicePositiveStepSubscript).start == start && asType(topParam(p), *syntaxSlicePositiveStepSubscript).end == end && asType(topParam(p), *syntaxSlicePositiveStepSubscript).step == step
 
 //@ func (*jsonPathParser).pushUnionQualifier
 //@   props C02 C19
@@ -1551,6 +1561,7 @@ package jsonpath
 //@   requires p != nil
 //@   before updateValueGroup#1 assert vgparam: arg1 == root
 //@   before updateAccessorMode#1 assert plainparam: arg1 == root && arg2 == false
+//@   ensures linked: wf(p.params) && (old(len(p.params)) >= 1 ==> len(p.params) == 1 && nodeWF(elemAt(p.params, off(p.params))))
 //@   requires wf(p.params) && (forall k {elemAt(p.params, k)} :: off(p.params) <= k && k < off(p.params) + len(p.params) ==> nodeOK(elemAt(p.params, k)) && 0 <= chainLen(elemAt(p.params, k)) && chainWalk(elemAt(p.params, k)))
 
 //@ func (*jsonPathParser).syntaxErr
@@ -1661,3 +1672,106 @@ package jsonpath
 //@   props C02
 //@   parsetime
 //@   requires p != nil && p.unescapeRegex != nil
+
+// ---------------------------------------------------------------------------------------
+// The action bodies of the generated parser (jsonpath.peg.go, Execute): one switch case per action of the grammar,
+// replayed over the token list.  Callers (Parse) use the assumed extern contract of Execute above; here the BODY of
+// Execute is verified case by case: `case <rule> assume e` is the shape of the value stack the grammar guarantees when
+// that action fires (the rule contract: assumed - its justification is the composition of stack effects along the
+// grammar, not built, and the bounded corpora), `case <rule> ensures e` is what the action leaves behind (proved),
+// and every implicit panic condition inside the case (type assertions on popped values, bounds, nil) is an obligation.
+// ---------------------------------------------------------------------------------------
+//@ extern (*tokens32).Tokens
+//@   ensures wf(ret)
+//@   modifies heap:alloc, heap:A_S_token32
+//@ spec stk(p *pegJSONPathParser, d int) any = elemAt(p.jsonPathParser.params, off(p.jsonPathParser.params) + len(p.jsonPathParser.params) - 1 - d)
+//@ spec nodeWF(v any) bool = nodeOK(v) && 0 <= chainLen(v) && chainWalk(v) && PN(v)
+//@ spec lastNodeOK(p *pegJSONPathParser) bool = len(p.jsonPathParser.params) >= 1 && nodeWF(stk(p, 0)) && (isType(stk(p, 0), *syntaxChildMultiIdentifier) && asType(stk(p, 0), *syntaxChildMultiIdentifier).isAllWildcard ==> asType(stk(p, 0), *syntaxChildMultiIdentifier).unionQualifier.syntaxBasicNode != nil)
+//@ spec cmpqOK(q any) bool = isType(q, *syntaxBasicCompareQuery) ==> asType(q, *syntaxBasicCompareQuery) != nil && asType(q, *syntaxBasicCompareQuery).leftParam != nil && asType(q, *syntaxBasicCompareQuery).rightParam != nil
+//@ interface syntaxQueryJSONPathParameter.isValueGroupParameter
+//@   requires this != nil
+//@   pure
+//@ cases (*pegJSONPathParser).Execute
+//@   props C02 C09 C10 C11 C14 C16 C17 C19
+//@   parsetime
+//@   requires p != nil && p.jsonPathParser.unescapeRegex != nil && p.jsonPathParser.unescapeRegex == unescapeRegex
+//@   loop 2 invariant aggchain: checkNode != nil ==> PN(checkNode)
+//@   panics ErrorInvalidSyntax, ErrorInvalidArgument, ErrorFunctionNotFound, ErrorNotSupported
+// the token list: captured text ranges lie inside the rune buffer (A-PEG)
+//@   case rulePegText assume wf(_buffer) && 0 <= token.begin && token.begin <= token.end && token.end <= len(_buffer)
+// what the grammar guarantees beyond the types of the popped values (hand-written rule contracts)
+//@   case ruleAction1 assume 0 <= begin && begin <= runeCount(buffer)
+//@   case ruleAction2 assume len(p.jsonPathParser.params) >= 1 && (forall k {elemAt(p.jsonPathParser.params, k)} :: off(p.jsonPathParser.params) <= k && k < off(p.jsonPathParser.params) + len(p.jsonPathParser.params) ==> nodeWF(elemAt(p.jsonPathParser.params, k)))
+//@   case ruleAction4 assume lastNodeOK(p)
+//@   case ruleAction7 assume lastNodeOK(p)
+//@   case ruleAction15 assume asType(stk(p, 1), *syntaxUnionQualifier).syntaxBasicNode != nil
+//@   case ruleAction26 assume 0 <= begin && begin <= runeCount(buffer) && (isType(stk(p, 0), *syntaxLogicalNot) ==> asType(stk(p, 0), *syntaxLogicalNot) != nil && cmpqOK(asType(stk(p, 0), *syntaxLogicalNot).query)) && cmpqOK(stk(p, 0))
+//@   case ruleAction27 assume len(text) >= 1
+//@   case ruleAction28 assume cparamOK(asType(stk(p, 0), *syntaxBasicCompareParameter)) && cparamOK(asType(stk(p, 1), *syntaxBasicCompareParameter))
+//@   case ruleAction29 assume cparamOK(asType(stk(p, 0), *syntaxBasicCompareParameter)) && cparamOK(asType(stk(p, 1), *syntaxBasicCompareParameter))
+//@   case ruleAction37 assume 0 <= begin && begin <= runeCount(buffer) && stk(p, 1) != nil
+//@   case ruleAction38 assume wf(p.jsonPathParser.paramsList)
+//@   case ruleAction39 assume wf(p.jsonPathParser.paramsList) && (forall v Val {PN(v)} :: PN(v) ==> PNdef(v))
+// what each action leaves on the stack, in terms of what it found there (old = the state when the action fired)
+//@   case ruleAction5 ensures named: len(p.jsonPathParser.params) == old(len(p.jsonPathParser.params)) && (has(p.jsonPathParser.filterFunctions, asType(old(stk(p, 0)), string)) ==> isType(stk(p, 0), *syntaxFilterFunction) && asType(stk(p, 0), *syntaxFilterFunction).function == p.jsonPathParser.filterFunctions[asType(old(stk(p, 0)), string)])
+//@   case ruleAction10 ensures key: isType(stk(p, 0), *syntaxChildSingleIdentifier) && asType(stk(p, 0), *syntaxChildSingleIdentifier).identifier == dotUnesc(text)
+//@   case ruleAction13 assume sqValid(text)
+//@   case ruleAction13 ensures key: isType(stk(p, 0), *syntaxChildSingleIdentifier) && asType(stk(p, 0), *syntaxChildSingleIdentifier).identifier == sqJson(text)
+//@   case ruleAction14 ensures key: isType(stk(p, 0), *syntaxChildSingleIdentifier) && asType(stk(p, 0), *syntaxChildSingleIdentifier).identifier == dqJson(text)
+//@   case ruleAction16 ensures slice: len(p.jsonPathParser.params) == old(len(p.jsonPathParser.params)) - 2 && ((isType(stk(p, 0), *syntaxSlicePositiveStepSubscript) && asType(stk(p, 0), *syntaxSlicePositiveStepSubscript).start == asType(old(stk(p, 2)), *syntaxIndexSubscript) && asType(stk(p, 0), *syntaxSlicePositiveStepSubscript).end == asType(old(stk(p, 1)), *syntaxIndexSubscript) && asType(stk(p, 0), *syntaxSlicePositiveStepSubscript).step == asType(old(stk(p, 0)), *syntaxIndexSubscript) && asType(old(stk(p, 0)), *syntaxIndexSubscript).number >= 0) || (isType(stk(p, 0), *syntaxSliceNegativeStepSubscript) && asType(stk(p, 0), *syntaxSliceNegativeStepSubscript).start == asType(old(stk(p, 2)), *syntaxIndexSubscript) && asType(stk(p, 0), *syntaxSliceNegativeStepSubscript).end == asType(old(stk(p, 1)), *syntaxIndexSubscript) && asType(stk(p, 0), *syntaxSliceNegativeStepSubscript).step == asType(old(stk(p, 0)), *syntaxIndexSubscript) && asType(old(stk(p, 0)), *syntaxIndexSubscript).number < 0))
+//@   case ruleAction24 ensures or: len(p.jsonPathParser.params) == old(len(p.jsonPathParser.params)) - 1 && isType(stk(p, 0), *syntaxLogicalOr) && asType(stk(p, 0), *syntaxLogicalOr).leftQuery == old(stk(p, 1)) && asType(stk(p, 0), *syntaxLogicalOr).rightQuery == old(stk(p, 0))
+//@   case ruleAction25 ensures and: len(p.jsonPathParser.params) == old(len(p.jsonPathParser.params)) - 1 && isType(stk(p, 0), *syntaxLogicalAnd) && asType(stk(p, 0), *syntaxLogicalAnd).leftQuery == old(stk(p, 1)) && asType(stk(p, 0), *syntaxLogicalAnd).rightQuery == old(stk(p, 0))
+//@   case ruleAction28 ensures eq: len(p.jsonPathParser.params) == old(len(p.jsonPathParser.params)) - 1 && isType(stk(p, 0), *syntaxBasicCompareQuery) && eqBuilt(asType(stk(p, 0), *syntaxBasicCompareQuery), asType(old(stk(p, 1)), *syntaxBasicCompareParameter), asType(old(stk(p, 0)), *syntaxBasicCompareParameter), old(litVal(asType(stk(p, 1), *syntaxBasicCompareParameter))), old(litVal(asType(stk(p, 0), *syntaxBasicCompareParameter))))
+//@   case ruleAction29 ensures ne: len(p.jsonPathParser.params) == old(len(p.jsonPathParser.params)) - 1 && isType(stk(p, 0), *syntaxLogicalNot) && isType(asType(stk(p, 0), *syntaxLogicalNot).query, *syntaxBasicCompareQuery) && eqBuilt(asType(asType(stk(p, 0), *syntaxLogicalNot).query, *syntaxBasicCompareQuery), asType(old(stk(p, 1)), *syntaxBasicCompareParameter), asType(old(stk(p, 0)), *syntaxBasicCompareParameter), old(litVal(asType(stk(p, 1), *syntaxBasicCompareParameter))), old(litVal(asType(stk(p, 0), *syntaxBasicCompareParameter))))
+//@   case ruleAction30 ensures le: len(p.jsonPathParser.params) == old(len(p.jsonPathParser.params)) - 1 && isType(stk(p, 0), *syntaxBasicCompareQuery) && leBuilt(asType(stk(p, 0), *syntaxBasicCompareQuery), asType(old(stk(p, 1)), *syntaxBasicCompareParameter), asType(old(stk(p, 0)), *syntaxBasicCompareParameter))
+//@   case ruleAction31 ensures lt: len(p.jsonPathParser.params) == old(len(p.jsonPathParser.params)) - 1 && isType(stk(p, 0), *syntaxBasicCompareQuery) && ltBuilt(asType(stk(p, 0), *syntaxBasicCompareQuery), asType(old(stk(p, 1)), *syntaxBasicCompareParameter), asType(old(stk(p, 0)), *syntaxBasicCompareParameter))
+//@   case ruleAction32 ensures ge: len(p.jsonPathParser.params) == old(len(p.jsonPathParser.params)) - 1 && isType(stk(p, 0), *syntaxBasicCompareQuery) && geBuilt(asType(stk(p, 0), *syntaxBasicCompareQuery), asType(old(stk(p, 1)), *syntaxBasicCompareParameter), asType(old(stk(p, 0)), *syntaxBasicCompareParameter))
+//@   case ruleAction33 ensures gt: len(p.jsonPathParser.params) == old(len(p.jsonPathParser.params)) - 1 && isType(stk(p, 0), *syntaxBasicCompareQuery) && gtBuilt(asType(stk(p, 0), *syntaxBasicCompareQuery), asType(old(stk(p, 1)), *syntaxBasicCompareParameter), asType(old(stk(p, 0)), *syntaxBasicCompareParameter))
+// stack shapes, generated by /verif/gen_action_contracts.py from the action text of jsonpath.peg (the values an action pops
+// are there and have the types it asserts)
+//@   case ruleAction0 assume wf(p.jsonPathParser.params) && len(p.jsonPathParser.params) >= 1 && nodeWF(stk(p, 0))
+//@   case ruleAction1 assume wf(p.jsonPathParser.params)
+//@   case ruleAction2 assume wf(p.jsonPathParser.params)
+//@   case ruleAction3 assume wf(p.jsonPathParser.params) && len(p.jsonPathParser.params) >= 1 && nodeWF(stk(p, 0))
+//@   case ruleAction4 assume wf(p.jsonPathParser.params)
+//@   case ruleAction5 assume wf(p.jsonPathParser.params) && len(p.jsonPathParser.params) >= 1 && isType(stk(p, 0), string)
+//@   case ruleAction6 assume wf(p.jsonPathParser.params)
+//@   case ruleAction7 assume wf(p.jsonPathParser.params)
+//@   case ruleAction8 assume wf(p.jsonPathParser.params)
+//@   case ruleAction9 assume wf(p.jsonPathParser.params)
+//@   case ruleAction10 assume wf(p.jsonPathParser.params)
+//@   case ruleAction11 assume wf(p.jsonPathParser.params) && len(p.jsonPathParser.params) >= 2 && nodeWF(stk(p, 0)) && nodeWF(stk(p, 1))
+//@   case ruleAction12 assume wf(p.jsonPathParser.params)
+//@   case ruleAction13 assume wf(p.jsonPathParser.params)
+//@   case ruleAction14 assume wf(p.jsonPathParser.params)
+//@   case ruleAction15 assume wf(p.jsonPathParser.params) && len(p.jsonPathParser.params) >= 2 && isType(stk(p, 0), *syntaxUnionQualifier) && asType(stk(p, 0), *syntaxUnionQualifier) != nil && isType(stk(p, 1), *syntaxUnionQualifier) && asType(stk(p, 1), *syntaxUnionQualifier) != nil
+//@   case ruleAction16 assume wf(p.jsonPathParser.params) && len(p.jsonPathParser.params) >= 3 && isType(stk(p, 0), *syntaxIndexSubscript) && asType(stk(p, 0), *syntaxIndexSubscript) != nil && isType(stk(p, 1), *syntaxIndexSubscript) && asType(stk(p, 1), *syntaxIndexSubscript) != nil && isType(stk(p, 2), *syntaxIndexSubscript) && asType(stk(p, 2), *syntaxIndexSubscript) != nil
+//@   case ruleAction17 assume wf(p.jsonPathParser.params)
+//@   case ruleAction18 assume wf(p.jsonPathParser.params)
+//@   case ruleAction19 assume wf(p.jsonPathParser.params) && len(p.jsonPathParser.params) >= 1 && isType(stk(p, 0), syntaxSubscript)
+//@   case ruleAction20 assume wf(p.jsonPathParser.params)
+//@   case ruleAction21 assume wf(p.jsonPathParser.params)
+//@   case ruleAction22 assume wf(p.jsonPathParser.params)
+//@   case ruleAction23 assume wf(p.jsonPathParser.params) && len(p.jsonPathParser.params) >= 1 && isType(stk(p, 0), syntaxQuery)
+//@   case ruleAction24 assume wf(p.jsonPathParser.params) && len(p.jsonPathParser.params) >= 2 && isType(stk(p, 0), syntaxQuery) && isType(stk(p, 1), syntaxQuery)
+//@   case ruleAction25 assume wf(p.jsonPathParser.params) && len(p.jsonPathParser.params) >= 2 && isType(stk(p, 0), syntaxQuery) && isType(stk(p, 1), syntaxQuery)
+//@   case ruleAction26 assume wf(p.jsonPathParser.params) && len(p.jsonPathParser.params) >= 1
+//@   case ruleAction27 assume wf(p.jsonPathParser.params) && len(p.jsonPathParser.params) >= 2 && isType(stk(p, 1), syntaxQuery)
+//@   case ruleAction28 assume wf(p.jsonPathParser.params) && len(p.jsonPathParser.params) >= 2 && isType(stk(p, 0), *syntaxBasicCompareParameter) && asType(stk(p, 0), *syntaxBasicCompareParameter) != nil && isType(stk(p, 1), *syntaxBasicCompareParameter) && asType(stk(p, 1), *syntaxBasicCompareParameter) != nil
+//@   case ruleAction29 assume wf(p.jsonPathParser.params) && len(p.jsonPathParser.params) >= 2 && isType(stk(p, 0), *syntaxBasicCompareParameter) && asType(stk(p, 0), *syntaxBasicCompareParameter) != nil && isType(stk(p, 1), *syntaxBasicCompareParameter) && asType(stk(p, 1), *syntaxBasicCompareParameter) != nil
+//@   case ruleAction30 assume wf(p.jsonPathParser.params) && len(p.jsonPathParser.params) >= 2 && isType(stk(p, 0), *syntaxBasicCompareParameter) && asType(stk(p, 0), *syntaxBasicCompareParameter) != nil && isType(stk(p, 1), *syntaxBasicCompareParameter) && asType(stk(p, 1), *syntaxBasicCompareParameter) != nil
+//@   case ruleAction31 assume wf(p.jsonPathParser.params) && len(p.jsonPathParser.params) >= 2 && isType(stk(p, 0), *syntaxBasicCompareParameter) && asType(stk(p, 0), *syntaxBasicCompareParameter) != nil && isType(stk(p, 1), *syntaxBasicCompareParameter) && asType(stk(p, 1), *syntaxBasicCompareParameter) != nil
+//@   case ruleAction32 assume wf(p.jsonPathParser.params) && len(p.jsonPathParser.params) >= 2 && isType(stk(p, 0), *syntaxBasicCompareParameter) && asType(stk(p, 0), *syntaxBasicCompareParameter) != nil && isType(stk(p, 1), *syntaxBasicCompareParameter) && asType(stk(p, 1), *syntaxBasicCompareParameter) != nil
+//@   case ruleAction33 assume wf(p.jsonPathParser.params) && len(p.jsonPathParser.params) >= 2 && isType(stk(p, 0), *syntaxBasicCompareParameter) && asType(stk(p, 0), *syntaxBasicCompareParameter) != nil && isType(stk(p, 1), *syntaxBasicCompareParameter) && asType(stk(p, 1), *syntaxBasicCompareParameter) != nil
+//@   case ruleAction34 assume wf(p.jsonPathParser.params) && len(p.jsonPathParser.params) >= 1 && isType(stk(p, 0), *syntaxBasicCompareParameter) && asType(stk(p, 0), *syntaxBasicCompareParameter) != nil
+//@   case ruleAction35 assume wf(p.jsonPathParser.params) && len(p.jsonPathParser.params) >= 1
+//@   case ruleAction36 assume wf(p.jsonPathParser.params) && len(p.jsonPathParser.params) >= 1
+//@   case ruleAction37 assume wf(p.jsonPathParser.params) && len(p.jsonPathParser.params) >= 2 && isType(stk(p, 0), bool) && isType(stk(p, 1), syntaxQueryJSONPathParameter)
+//@   case ruleAction38 assume wf(p.jsonPathParser.params)
+//@   case ruleAction39 assume wf(p.jsonPathParser.params) && len(p.jsonPathParser.params) >= 1 && nodeWF(stk(p, 0))
+//@   case ruleAction40 assume wf(p.jsonPathParser.params)
+//@   case ruleAction41 assume wf(p.jsonPathParser.params)
+//@   case ruleAction42 assume wf(p.jsonPathParser.params)
+//@   case ruleAction43 assume wf(p.jsonPathParser.params)
+//@   case ruleAction44 assume wf(p.jsonPathParser.params)
+//@   case ruleAction45 assume wf(p.jsonPathParser.params)
